@@ -33,6 +33,17 @@ CHECKS = {
             'order sits in exactly one trade, and a call on a final order must leave the whole canonical state (balances, margin tables, positions, trades) identical.',
             'Account comparison of C03/C04 stays on. Depth 4-5 quick / 5-6 thorough, <=3 live orders. The simulator-made duplicate calls are additionally monitored in the session checks.',
             'DESIGN.md 3/C05'),
+    'C17': ('lattice', 'complete enumeration of input lattices against exact rational references, plus end-to-end order acceptance on real spot/futures exchange objects',
+            'size_to_qty / risk_to_qty / limit_stop_loss over 12 capitals x prices m*10^e x 5 fee rates x precisions 0..8, decimal helpers over all i/10^d pairs and float neighbours, '
+            'live rounding over precisions -2..8, the timeframe tables for every timeframe and max_timeframe for all 2^17-1 subsets are enumerated completely and compared with '
+            'exact Fractions; every near-the-limit sized quantity is submitted to a fresh real account holding the capital.',
+            'A statement about the enumerated lattice, not about all reals; money comparisons carry a 1e-9 relative band, acceptance/decimal/rounding/tables are exact.',
+            'DESIGN.md 3/C17'),
+    'C19': ('lattice', 'complete enumeration of the DNA alphabet x positions x declarations, plus all defaults/dna()/explicit combinations through real research.backtest sessions',
+            'All 80 letters at two positions against 9 declarations (all 80x80 gene pairs at position 0) are decoded with the real dna_to_hp and checked for range, type, own-gene '
+            'dependence, monotonicity, end points and linearity; 112 real backtests cover every combination of declared defaults, dna() and explicit hyperparameters in both simulators '
+            'with one and two routes in both orders, the strategies recording self.hp.',
+            'Declarations are those listed in the evidence bounds; the alphabet is read from Optimizer.__init__.', 'DESIGN.md 3/C19'),
 }
 
 NOT_APPLICABLE = {}
